@@ -164,7 +164,7 @@ func c13Text(r *simrt.RNG) string {
 
 func c13Gen(r *simrt.RNG, tier string) interface{} {
 	p := &c13Plan{Shared: r.Bool(0.5), RefAfter: r.Bool(0.4), Names: r.Bool(0.5)}
-	p.Files = map[string]string{"lib.ecal": "func twice(x) {\n    if x > 0 {\n        return {\"v\": x * 2}.v\n    }\n    return 0\n}\n[pa, pb] := [1, 2]\nlet [pc, pd] := [pa + 1, pb + 1]\npair := [pc, pd]\nfor [k, v] in {\"a\": 1, \"b\": 2} {\n    pair := [pair[0] + v, pair[1]]\n}\n"}
+	p.Files = map[string]string{"lib.ecal": "func twice(x) {\n    if x > 0 {\n        let m := {\"v\": x * 2}\n        return m.v\n    }\n    return 0\n}\n[pa, pb] := [1, 2]\nlet [pc, pd] := [pa + 1, pb + 1]\npair := [pc, pd]\nmm := {\"a\": 1, \"b\": 2}\nfor [k, v] in mm {\n    pair := [pair[0] + v, pair[1]]\n}\n"}
 	nt := 3 + r.Intn(6)
 	for i := 0; i < nt; i++ {
 		p.Corpus = append(p.Corpus, c13Text(r))
@@ -203,7 +203,7 @@ func c13Gen(r *simrt.RNG, tier string) interface{} {
 		t := r.Intn(len(p.Corpus))
 		for k, txt := range p.Corpus {
 			// (prefer a text whose evaluation keeps per-call state: loops, interpolation)
-			if (strings.Contains(txt, "range(") || strings.Contains(txt, "{{")) && len(txt) < 400 && r.Bool(0.5) {
+			if (strings.Contains(txt, "range(") || strings.Contains(txt, "{{") || strings.Contains(txt, "import ")) && len(txt) < 400 && r.Bool(0.5) {
 				t = k
 			}
 		}
@@ -477,6 +477,7 @@ func c13Run(p *c13Plan) {
 						alone.Kind = "eval" // reference: a tree of its own, parsed and evaluated alone
 					}
 					ref[op] = c13Do(alone, p, refErp)
+					simrt.Count("reference_" + strings.SplitN(ref[op], ":", 2)[0])
 				}
 			}
 		}
